@@ -145,6 +145,9 @@ fn run<T: Sc>(case: &C11Case) -> Check {
     out.nontrivial = case.pools.iter().any(|n| *n >= 2) && case.base.spec.p >= 2;
     out.count("mirrored_states", states);
     out.class(case.base.flavour());
+    for r in case.base.regime() {
+        out.class(r);
+    }
     out.class(format!("P={}", case.base.spec.p));
     Ok(out)
 }
